@@ -311,12 +311,18 @@ def make_cer(rc: Dict[str, str], fc: Dict[str, bool], hints: Dict[str, Optional[
     )
 
 
+_LONG_LIVED_DATA = EvaluatableData(body={}, edifact_format=FORMAT, edifact_format_version=VERSION)
+LONG_LIVED = [False]  # True: ONE EvaluatableData object for the whole process whose body is updated in place from message to message
+
+
 def _provide_cer_data() -> EvaluatableData:
     from ahbicht.models.content_evaluation_result import ContentEvaluationResultSchema
 
     cer = _cer_var.get()
     if cer is None:
         raise RuntimeError("harness error: no content evaluation result set in this context")
+    if LONG_LIVED[0]:
+        return _LONG_LIVED_DATA
     return EvaluatableData(body=ContentEvaluationResultSchema().dump(cer), edifact_format=FORMAT, edifact_format_version=VERSION)
 
 
@@ -352,4 +358,80 @@ def install_cer_based() -> None:
 
 
 def set_cer(cer) -> None:
+    from ahbicht.models.content_evaluation_result import ContentEvaluationResultSchema
+
     _cer_var.set(cer)
+    if LONG_LIVED[0]:
+        dumped = ContentEvaluationResultSchema().dump(cer)
+        for key, value in dumped.items():  # in place, nested containers too: the application keeps its objects and refreshes their content
+            if isinstance(value, dict) and isinstance(_LONG_LIVED_DATA.body.get(key), dict):
+                _LONG_LIVED_DATA.body[key].clear()
+                _LONG_LIVED_DATA.body[key].update(value)
+            else:
+                _LONG_LIVED_DATA.body[key] = value
+
+
+# -------------------------------------------------------------------------------------------------
+# user evaluators that keep their answers in INSTANCE state; a new instance per message (another legitimate way of using the base classes)
+# -------------------------------------------------------------------------------------------------
+class InstanceStateRcEvaluator(RcEvaluator):
+    edifact_format = FORMAT
+    edifact_format_version = VERSION
+
+    def __init__(self, table: Dict[str, str]):
+        super().__init__()
+        self.table = dict(table)
+
+    def _get_default_context(self) -> EvaluationContext:
+        return EvaluationContext(scope=None)
+
+
+class InstanceStateFcEvaluator(FcEvaluator):
+    edifact_format = FORMAT
+    edifact_format_version = VERSION
+
+    def __init__(self, table: Dict[str, bool]):
+        super().__init__()
+        self.table = dict(table)
+
+
+def _make_instance_rc(key: str):
+    def evaluate(self, evaluatable_data, context):  # pylint:disable=unused-argument
+        return REAL[self.table[key]]
+
+    evaluate.__name__ = f"evaluate_{key}"
+    return evaluate
+
+
+def _make_instance_fc(key: str):
+    async def evaluate(self, entered_input):  # pylint:disable=unused-argument
+        ok = self.table[key]
+        return EvaluatedFormatConstraint(format_constraint_fulfilled=ok, error_message=None if ok else f"E{key}")
+
+    evaluate.__name__ = f"evaluate_{key}"
+    return evaluate
+
+
+for _k in RC_KEYS:
+    setattr(InstanceStateRcEvaluator, f"evaluate_{_k}", _make_instance_rc(_k))
+for _k in FC_KEYS:
+    setattr(InstanceStateFcEvaluator, f"evaluate_{_k}", _make_instance_fc(_k))
+
+
+def install_instance_state(rc: Dict[str, str], fc: Dict[str, bool], hints: Dict[str, Optional[str]]) -> None:
+    """fresh evaluator INSTANCES of the same classes for every message"""
+    from ahbicht.content_evaluation.token_logic_provider import SingletonTokenLogicProvider
+    from ahbicht.expressions.hints_provider import DictBasedHintsProvider
+    from ahbicht.expressions.package_expansion import DictBasedPackageResolver
+
+    hp = DictBasedHintsProvider(dict(hints))
+    hp.edifact_format, hp.edifact_format_version = FORMAT, VERSION
+    pr = DictBasedPackageResolver({})
+    pr.edifact_format, pr.edifact_format_version = FORMAT, VERSION
+    tlp = SingletonTokenLogicProvider([InstanceStateRcEvaluator(rc), InstanceStateFcEvaluator(fc), hp, pr])
+
+    def configure(binder):
+        binder.bind(TokenLogicProvider, tlp)
+        binder.bind_to_provider(EvaluatableDataProvider, lambda: EvaluatableData(body={}, edifact_format=FORMAT, edifact_format_version=VERSION))
+
+    inject.clear_and_configure(configure)
